@@ -440,20 +440,20 @@ func journalKey(rr *RunResult) string {
 // ---------------------------------------------------------------- minimisation and replay files
 
 type ReplayFile struct {
-	V         int       `json:"v"`
-	Property  string    `json:"property"`
-	Signature string    `json:"signature"`
-	Message   string    `json:"message"`
-	Kind      string    `json:"kind"`
-	VerifSeed uint64    `json:"verif_seed"`
-	Build     BuildCfg  `json:"build"`
-	Env       []string  `json:"env,omitempty"`
-	Spec      *RunSpec  `json:"spec"`
-	Ops       []string  `json:"operations"`
-	Minimised string    `json:"minimised_from"`
+	V          int      `json:"v"`
+	Property   string   `json:"property"`
+	Signature  string   `json:"signature"`
+	Message    string   `json:"message"`
+	Kind       string   `json:"kind"`
+	VerifSeed  uint64   `json:"verif_seed"`
+	Build      BuildCfg `json:"build"`
+	Env        []string `json:"env,omitempty"`
+	Spec       *RunSpec `json:"spec"`
+	Ops        []string `json:"operations"`
+	Minimised  string   `json:"minimised_from"`
 	Reproduced string   `json:"reproduced"`
-	Seen      int       `json:"seen_in_runs"`
-	Extra     string    `json:"adjudication,omitempty"`
+	Seen       int      `json:"seen_in_runs"`
+	Extra      string   `json:"adjudication,omitempty"`
 }
 
 func (c *Checker) hasSig(o evalOpts, sig string) bool {
